@@ -106,4 +106,40 @@ theorem checkDates_isSome (c : Ctx) : (checkDates c).isSome = true := by
   obtain ⟨b, hb⟩ := Option.isSome_iff_exists.mp (checkField_isSome c .po c.po)
   simp [ha, hb]
 
+/-! ### the shape of the whole output -/
+
+/-- the tags of the dates of one field, one after the other -/
+def perDate (now : Int) (f : Field) (tmpl pub : Bool) (ds : List (List Char)) : List Tag :=
+  (ds.map fun d => (checkOne now f tmpl pub d).getD []).flatten
+
+theorem checkAll_eq (now : Int) (f : Field) (tmpl pub : Bool) (ds : List (List Char)) :
+    checkAll now f tmpl pub ds = some (perDate now f tmpl pub ds) := by
+  induction ds with
+  | nil => rfl
+  | cons d ds ih =>
+    obtain ⟨a, ha⟩ := Option.isSome_iff_exists.mp (checkOne_isSome now f tmpl pub d)
+    simp [checkAll, ha, ih, perDate]
+
+/-- what `check_dates` says about one field -/
+def fieldTags (c : Ctx) (f : Field) (dates : List (List Char)) : List Tag :=
+  if dates.length > 1 then
+    ⟨"duplicate-header-field-date", [.str f.name]⟩ :: perDate c.now f c.isTemplate (isPublican c.contentType) (sortedSet dates)
+  else if dates.length = 0 then
+    (if f = .pot ∧ c.isBinary = true then [] else [⟨"no-date-header-field", [.str f.name]⟩])
+  else perDate c.now f c.isTemplate (isPublican c.contentType) dates
+
+theorem checkField_eq (c : Ctx) (f : Field) (dates : List (List Char)) :
+    checkField c f dates = some (fieldTags c f dates) := by
+  unfold checkField fieldTags
+  simp only [checkAll_eq]
+  split
+  · rfl
+  · split
+    · split <;> rfl
+    · rfl
+
+theorem checkDates_eq (c : Ctx) : checkDates c = some (fieldTags c .pot c.pot ++ fieldTags c .po c.po) := by
+  unfold checkDates
+  simp only [checkField_eq]
+
 end I18n.Date
